@@ -25,12 +25,19 @@ KINDS: dict[str, Any] = {
     "retry_delay": {"make": lambda: ih.wf_retry_delay(D), "expected": "retried:1"},
     "waiter_timeout": {"make": lambda: ih.wf_wait_timeout(D), "expected": "timed-out"},
 }
+# several timers in a row, each shorter than idle_timeout (2D) but together longer, and no client event in between: every
+# one of them comes due while the run is in memory, so the run must never be released on the way
+CHAINS: dict[str, Any] = {
+    "retry_chain": {"make": lambda: ih.wf_retry_chain(D, 3), "expected": "retried:3"},
+    "waiter_chain": {"make": lambda: ih.wf_wait_chain(D, 3), "expected": "timed-out:3"},
+}
+KINDS_ALL = {**KINDS, **CHAINS}
 
 
 def execute(ex: Execution, kind: str, backend: str, idle_timeout: float, max_crash: int, busy_ticks: int = 0) -> tuple[Any, list[Any]]:
     """``busy_ticks``: that many ticks of a process may keep its loop busy (slow persistence, a long pause) until after the
     next wake-up the run has scheduled for itself - the timer comes due while the run is in memory but not looking"""
-    spec = KINDS[kind]
+    spec = KINDS_ALL[kind]
     # fault choice first: 0 = the process keeps running, k = it stops right after the k-th persisted tick
     k = ex.choose(max_crash + 1, "process_stop", ["never"] + [f"after_tick_{i}" for i in range(1, max_crash + 1)])
     crash_at: int | None = k or None
@@ -135,6 +142,11 @@ def programs(tier: str) -> list[Program]:
                 ps.append(Program(f"{kind}/{backend}/idle_timeout={it}/slow_tick", {"kind": kind, "backend": backend, "idle_timeout": it, "busy_ticks": 1},
                                   (lambda ex, kind=kind, backend=backend, it=it: execute(ex, kind, backend, it, 7 if q else 10, busy_ticks=(1 if q else 2))),
                                   max_dev=(3 if q else 6)))
+    for kind in CHAINS:
+        for backend in (("memory",) if q else ("memory", "sqlite")):
+            for it in ((2 * D,) if q else (2 * D, 1.5 * D)):
+                ps.append(Program(f"{kind}/{backend}/idle_timeout={it}", {"kind": kind, "backend": backend, "idle_timeout": it},
+                                  (lambda ex, kind=kind, backend=backend, it=it: execute(ex, kind, backend, it, 0 if q else 4)), max_dev=(3 if q else 5)))
     return ps
 
 
